@@ -1,2 +1,264 @@
--- stub driver for C19: replaced when the property's model exists
-def main : IO Unit := pure ()
+import Snel.Model.Proto
+import Snel.Model.WalArchive
+open Snel Snel.Proto Snel.WalArchive
+
+/-! Line protocol of the C19 streams (see `harness/src/bin/c19.rs`):
+
+```
+clean <cons 0|1> <shard> <root d|m|f|b> <nNodes> {node} <nSteps> {step}
+node   := <namehex> (D | L | J | A <shard> <logId> <start> <end> <count> <n> {entry})
+entry  := <typehex> <ctxhex> <ts> <eid> <n> {<keyhex> <value>}
+value  := n | t | f | i<int> | d<hex16> | T<int> | s<hex> | B<hex>
+step   := <nFiles> {file} <bound>
+file   := <namehex> (r|u) (d|k) <nLines> {line}
+line   := b | g | e <rawentry>          -- rawentry = entry with jvalues
+jvalue := n | t | f | i<int> | d<hex16> | s<hex> | c<hex>
+reser <n> {entry}
+aname <id> <start> <end>
+```
+-/
+
+abbrev P := StateT (List String) Option
+
+def tok : P String := do
+  match (← get) with
+  | [] => failure
+  | t :: r => set r; pure t
+
+def pNat : P Nat := do
+  match (← tok).toNat? with
+  | some n => pure n
+  | none => failure
+
+def rep {α : Type} (n : Nat) (p : P α) : P (List α) := (List.range n).mapM fun _ => p
+
+def strOfHex (t : String) : Option String := do
+  let bs ← unhex t
+  String.fromUTF8? (ByteArray.mk bs.toArray)
+
+def pStr : P String := do
+  match strOfHex (← tok) with
+  | some s => pure s
+  | none => failure
+
+def pName : P Name := do return (← pStr).toList
+
+def hexNat (t : String) : Option Nat :=
+  t.toList.foldlM (fun acc c => (hexVal c).map fun d => acc * 16 + d) 0
+
+def pValue : P Value := do
+  let t ← tok
+  match t.toList with
+  | ['n'] => pure .null
+  | ['t'] => pure (.bool true)
+  | ['f'] => pure (.bool false)
+  | 'i' :: r => match (String.ofList r).toInt? with
+    | some i => pure (.int i)
+    | none => failure
+  | 'T' :: r => match (String.ofList r).toInt? with
+    | some i => pure (.ts i)
+    | none => failure
+  | 'd' :: r => match hexNat (String.ofList r) with
+    | some b => if r.length = 16 then pure (.float b) else failure
+    | none => failure
+  | 's' :: r => match strOfHex (String.ofList r) with
+    | some s => pure (.str s)
+    | none => failure
+  | 'B' :: r => match unhex (String.ofList r) with
+    | some b => pure (.bin b)
+    | none => failure
+  | _ => failure
+
+def pJVal : P JVal := do
+  let t ← tok
+  match t.toList with
+  | ['n'] => pure .null
+  | ['t'] => pure (.bool true)
+  | ['f'] => pure (.bool false)
+  | 'i' :: r => match (String.ofList r).toInt? with
+    | some i => pure (.int i)
+    | none => failure
+  | 'd' :: r => match hexNat (String.ofList r) with
+    | some b => if r.length = 16 then pure (.float b) else failure
+    | none => failure
+  | 's' :: r => match strOfHex (String.ofList r) with
+    | some s => pure (.str s)
+    | none => failure
+  | 'c' :: r => match strOfHex (String.ofList r) with
+    | some s => pure (.compound s)
+    | none => failure
+  | _ => failure
+
+def pEntry : P Entry := do
+  let ty ← pStr
+  let ctx ← pStr
+  let ts ← pNat
+  let eid ← pNat
+  let n ← pNat
+  let payload ← rep n do
+    let k ← pStr
+    let v ← pValue
+    pure (k, v)
+  pure { eventType := ty, contextId := ctx, timestamp := ts, payload := payload, eventId := eid }
+
+def pRaw : P RawEntry := do
+  let ty ← pStr
+  let ctx ← pStr
+  let ts ← pNat
+  let eid ← pNat
+  let n ← pNat
+  let payload ← rep n do
+    let k ← pStr
+    let v ← pJVal
+    pure (k, v)
+  pure { eventType := ty, contextId := ctx, timestamp := ts, payload := payload, eventId := eid }
+
+/-- Lines as the driver receives them: already classified by the trusted parser. -/
+inductive DLine
+  | blank
+  | garbage
+  | entry (r : RawEntry)
+
+def dparser : Parser DLine where
+  blank := fun l => match l with
+    | .blank => true
+    | _ => false
+  parseRaw := fun l => match l with
+    | .entry r => some r
+    | _ => none
+
+def pLine : P DLine := do
+  match (← tok) with
+  | "b" => pure .blank
+  | "g" => pure .garbage
+  | "e" => return .entry (← pRaw)
+  | _ => failure
+
+def pFile : P (WalFile DLine) := do
+  let name ← pName
+  let rd ← tok
+  let dl ← tok
+  let readable ← (match rd with
+    | "r" => pure true
+    | "u" => pure false
+    | _ => failure : P Bool)
+  let deletable ← (match dl with
+    | "d" => pure true
+    | "k" => pure false
+    | _ => failure : P Bool)
+  let n ← pNat
+  let lines ← rep n pLine
+  pure { name := name, lines := lines, readable := readable, deletable := deletable }
+
+def pNode : P (Name × Node) := do
+  let name ← pName
+  match (← tok) with
+  | "D" => pure (name, .dir)
+  | "L" => pure (name, .dangling)
+  | "J" => pure (name, .junk)
+  | "A" =>
+    let shard ← pNat
+    let id ← pNat
+    let s ← pNat
+    let e ← pNat
+    let c ← pNat
+    let n ← pNat
+    let es ← rep n pEntry
+    pure (name, .archive { header := { shard := shard, logId := id, startTs := s, endTs := e, count := c }, entries := es })
+  | _ => failure
+
+def pStep : P (Step DLine) := do
+  let n ← pNat
+  let files ← rep n pFile
+  let bound ← pNat
+  pure { add := files, bound := bound }
+
+/-! rendering -/
+
+def hexStr (s : String) : String := hexOfBytes s.toUTF8.toList
+def hexName (n : Name) : String := hexStr (String.ofList n)
+
+def hex16 (n : Nat) : String :=
+  String.ofList ((List.range 16).reverse.map fun i => hexDigit (n / 16 ^ i % 16))
+
+def rValue : Value → String
+  | .null => "n"
+  | .bool true => "t"
+  | .bool false => "f"
+  | .int i => s!"i{i}"
+  | .float b => "d" ++ hex16 b
+  | .ts i => s!"T{i}"
+  | .str s => "s" ++ hexStr s
+  | .bin b => "B" ++ hexOfBytes b
+
+def rEntry (e : Entry) : String :=
+  " ".intercalate ([hexStr e.eventType, hexStr e.contextId, toString e.timestamp, toString e.eventId,
+    toString e.payload.length] ++ e.payload.flatMap fun kv => [hexStr kv.1, rValue kv.2])
+
+def rootChar : Root → String
+  | .dir => "d" | .missing => "m" | .isFile => "f" | .blocked => "b"
+
+def nodeKind : Node → String
+  | .archive _ | .junk => "F"
+  | .dir => "D"
+  | .dangling => "L"
+
+def rObs (wal : List (WalFile DLine)) (fs : ArchFs) : String :=
+  let names := isort lexLe (wal.map (·.name))
+  let arch : List (Name × Node) := match fs.root with
+    | .dir => isort (fun (a b : Name × Node) => lexLe a.1 b.1) fs.nodes
+    | _ => []
+  let info := listInfo fs
+  let rec_ := match recoverAll fs with
+    | none => ["ERR"]
+    | some es => toString es.length :: es.map rEntry
+  " ".intercalate (["|", "W", toString names.length] ++ names.map hexName
+    ++ ["root=" ++ rootChar fs.root, "A", toString arch.length] ++ arch.map (fun kv => hexName kv.1 ++ ":" ++ nodeKind kv.2)
+    ++ ["I", toString info.length]
+    ++ info.map (fun kh => s!"{hexName kh.1}:{kh.2.shard}:{kh.2.logId}:{kh.2.startTs}:{kh.2.endTs}:{kh.2.count}")
+    ++ ["R"] ++ rec_)
+
+def runClean : P String := do
+  let cons ← pNat
+  let shard ← pNat
+  let root ← (do
+    match (← tok) with
+    | "d" => pure Root.dir
+    | "m" => pure Root.missing
+    | "f" => pure Root.isFile
+    | "b" => pure Root.blocked
+    | _ => failure : P Root)
+  let nn ← pNat
+  let nodes ← rep nn pNode
+  let ns ← pNat
+  let steps ← rep ns pStep
+  if !(← get).isEmpty || cons > 1 then failure
+  let init : List (WalFile DLine) × ArchFs := ([], { root := root, nodes := nodes })
+  let (_, outs) := steps.foldl (fun (acc : (List (WalFile DLine) × ArchFs) × List String) s =>
+    let st := runStep (cons == 1) dparser (fun _ => false) shard acc.1 s
+    (st, rObs st.1 st.2 :: acc.2)) (init, [])
+  pure (" ".intercalate outs.reverse)
+
+def runReser : P String := do
+  let n ← pNat
+  let es ← rep n pEntry
+  if !(← get).isEmpty then failure
+  let out := es.map Entry.reser
+  pure (" ".intercalate (toString out.length :: out.map rEntry))
+
+def runAname : P String := do
+  let id ← pNat
+  let s ← pNat
+  let e ← pNat
+  if !(← get).isEmpty then failure
+  pure (hexName (archName id s e))
+
+def answer (line : String) : String :=
+  let r := match words line with
+    | "clean" :: rest => (runClean.run rest).map Prod.fst
+    | "reser" :: rest => (runReser.run rest).map Prod.fst
+    | "aname" :: rest => (runAname.run rest).map Prod.fst
+    | _ => none
+  r.getD "bad-op"
+
+def main : IO Unit := serve answer
